@@ -265,9 +265,11 @@ DoCall(m, p) ==
                 Adv(ReleaseRef([m0 EXCEPT !.p = PCallOp(@, id, "release", "", r, 0)], r), p)
            ELSE Adv(m, p)
       [] o.op = "setctx" ->
-           Adv(SetCtx([m0 EXCEPT !.p = PCallOp(@, id, "setctx", "", 0, o.k)], o.k), p)
+           LET m1 == SetCtx([m0 EXCEPT !.p = PCallOp(@, id, "setctx", "", 0, o.k)], o.k) IN
+           Adv([m1 EXCEPT !.p = PRet(@, id, "ok", 0, 0)], p)
       [] o.op = "clearctx" ->
-           Adv(SetCtx([m0 EXCEPT !.p = PCallOp(@, id, "clearctx", "", 0, 0)], 0), p)
+           LET m1 == SetCtx([m0 EXCEPT !.p = PCallOp(@, id, "clearctx", "", 0, 0)], 0) IN
+           Adv([m1 EXCEPT !.p = PRet(@, id, "ok", 0, 0)], p)
       [] o.op \in {"wait", "resolve"} ->
            \* AddRefPromise, then park before PromiseContainer.Await's first section
            LET m1 == [m0 EXCEPT !.p = PCallOp(@, id, o.op, "", id, 0), !.x.cc[p] = [NoCC EXCEPT !.id = id]] IN
